@@ -268,4 +268,29 @@ fn thin_elems() { let a; let s = String::new();
     a = ThinArc::from_header_and_iter(0u8, vec![P(&s)].into_iter()); //~ E0597 | a = ThinArc::from_header_and_iter(0u8, vec![()].into_iter()); let _ = &s;
 }
 """)
+# ---------------------------------------------------------------- C11 / C12: width and niche (compile-time layout, nothing runs)
+WIDTH_PRELUDE = """#![allow(unused, dead_code)]
+use core::mem::size_of;
+use triomphe::*;
+#[repr(align(64))] struct Big([u8; 64]);
+trait Tr { fn f(&self) {} }
+const W: usize = size_of::<usize>();
+macro_rules! one_word { ($($t:ty),* $(,)?) => { $( const _: () = assert!(size_of::<$t>() == W && size_of::<Option<$t>>() == W); )* } }
+macro_rules! two_words { ($($t:ty),* $(,)?) => { $( const _: () = assert!(size_of::<$t>() == 2 * W && size_of::<Option<$t>>() == 2 * W); )* } }
+"""
+w("c11_width", "C11", "every handle type is one pointer wide (two for slice/str/trait-object payloads) and Option of it is the same size", """
+one_word!(Arc<()>, Arc<u8>, Arc<u64>, Arc<[u8; 3]>, Arc<Big>, Arc<String>,
+          OffsetArc<()>, OffsetArc<u8>, OffsetArc<Big>, OffsetArc<String>,
+          ArcBorrow<'static, ()>, ArcBorrow<'static, u8>, ArcBorrow<'static, Big>,
+          UniqueArc<()>, UniqueArc<u8>, UniqueArc<Big>, UniqueArc<String>,
+          ThinArc<(), u8>, ThinArc<u8, u64>, ThinArc<Big, u8>, ThinArc<u8, Big>, ThinArc<String, String>,
+          ArcUnion<u8, u8>, ArcUnion<(), Big>, ArcUnion<String, u64>, ArcUnion<Big, ()>);
+two_words!(Arc<[u8]>, Arc<[Big]>, Arc<str>, Arc<dyn Tr>, Arc<HeaderSlice<u8, [u64]>>, Arc<HeaderSlice<Big, str>>,
+           ArcBorrow<'static, [u8]>, ArcBorrow<'static, str>, ArcBorrow<'static, dyn Tr>,
+           UniqueArc<[u8]>, UniqueArc<str>, UniqueArc<dyn Tr>);
+fn generic<T, H>() {
+    // for all sized payloads (checked when instantiated; the repr(transparent) facts make it payload-independent)
+    let _ = [(); 0 - !(size_of::<usize>() == size_of::<*const u8>()) as usize];
+}
+""", prelude=WIDTH_PRELUDE)
 print("wrote", len([f for f in os.listdir(HERE) if f.endswith(".rs")]), "witnesses")
